@@ -44,3 +44,46 @@ reg("C16",
     "NaN propagation through + - * sqrt is IEEE behaviour of Float/f64 (assumed); theorems describe the code after fix commits 9f39851, 641a06a.",
     "Lean 4 law-free theorems + differential correspondence + exact rational oracle",
     "DESIGN.md §3 C16")
+
+reg("C03",
+    "Law-free Lean theorems for every multigraph: what from_graph reports (edges, externals, massive count, loop number, dod "
+    "formula), generalized_dod = 1 for the empty set and sum w - L(s) D/2 [- dod iff spanning] otherwise, the spanning flag "
+    "iff all massive edges are present and some returned component touches every external, the dimension formula, and "
+    "exactness of one component search (the set found from a seed is exactly the class of edges chained to it by shared "
+    "end points; Mathlib ReflTransGen). The partition of a subset into components by the outer loop and the vertex-count "
+    "identity are covered by the exhaustive correspondence (every multigraph with <=3/4 edges on 4 vertex slots, all subsets) "
+    "and the union-find oracle, not yet by a theorem: level is partial for those clauses.",
+    "Hash sets modelled as duplicate-free lists (only membership/cardinality is used); f64 rounding of generalized_dod measured against exact rationals.",
+    "Lean 4 law-free theorems + exhaustive small-graph correspondence + union-find/Fraction oracle",
+    "DESIGN.md §3 C03")
+
+reg("C04",
+    "Law-free Lean theorem of memoisation soundness: after recursive_fill_j_function on the full graph every subset id holds "
+    "exactly the value of the direct recursion J(0)=1, J(g)=sum_e J(g-e)/omega(g-e) in the code's summation order (invariant: "
+    "stored values correct, stored sets downward closed), for every E and every scalar type; table_j lifts it to the built "
+    "table. At alpha:=R: edge probabilities sum to one; closed form of the cached factor. Correspondence: model fillJ on the "
+    "implementation's own dods vs j_function (4 ulp), cachedFactor with statrs Gamma values; oracle: exact Fraction recursion, "
+    "explicit sum over all E! orderings, mpmath normalisation.",
+    "statrs::gamma is external (values supplied by the harness); the E!-orderings identity is checked by the oracle, not yet a theorem.",
+    "Lean 4 invariant proof of the memoised recursion + differential correspondence + exact rational oracle",
+    "DESIGN.md §3 C04")
+
+reg("C05",
+    "Law-free Lean theorems: the build returns Err iff some subset id has (omega <= 0, non-empty, not the full graph) under the "
+    "scalar's own comparison, the reported subset is the first such in id order, and an Ok table has 2^E entries holding exactly "
+    "the computed flags and degrees with no divergent proper subset; the model has no input besides the graph (determinism). "
+    "Correspondence on Ok/Err incl. near-threshold weights; exact rational iff outside the 1e-9 band; J finite>0; rebuilt in the "
+    "same and in a fresh process; E=63/64 panic is the open known finding.",
+    "No-panic clause only explored for E<=8 plus the E=63/64 probe; J positivity is an oracle check, not yet a theorem.",
+    "Lean 4 law-free theorems + differential correspondence + exact rational oracle",
+    "DESIGN.md §3 C05")
+
+reg("C06",
+    "Law-free Lean theorems about the cumulative scan (code after fix 46483d2): a selected edge belongs to the subgraph and the "
+    "rest is g without it; it is the FIRST edge in index order whose running sum reaches u (all earlier running sums compare "
+    "below u), or the last edge when no running sum reaches u<=1; for every non-empty subgraph and every u<=1 an edge is "
+    "selected (no panic) - for every scalar type, hence for IEEE f64 with rounded sums and u one ulp below 1. Correspondence "
+    "on every boundary +-1ulp; exact rational oracle on the real code.",
+    "Float assumed IEEE; the exact-arithmetic interval statement (probability p_e per edge) is checked by the oracle.",
+    "Lean 4 law-free theorems + differential correspondence + exact rational oracle",
+    "DESIGN.md §3 C06")
